@@ -318,6 +318,12 @@ UPGRADER:
 		case stateStatusBefore:
 			switch c {
 			case ' ':
+			case '\r':
+				// empty reason phrase
+				p.Processor.OnStatus(p, p.statusCode, "")
+				p.statusCode = 0
+				p.nextState(stateStatusLF)
+				continue
 			default:
 				if isAlpha(c) {
 					start = i
